@@ -100,7 +100,7 @@ impl Property for C06 {
          (b) spellings of generated ASTs with 12% deliberately erroneous sub-expressions (variables, unknown functions, wrong arity, wrong argument types); (c) character-level mutants \
          of valid spellings; (d) sized families: nested parentheses / function calls / predicates / filter predicates, operand and union chains, long paths, runs of '-' and '..', \
          unclosed brackets, huge numbers, many arguments. Oracle: in a worker process xml_xpath::query and the formatting of its result must return: a panic is caught and keyed by its \
-         site, a worker death or an exhausted CPU budget (20 s) is attributed to the announced case; in addition '$v' must be an error, id() an error or an empty node-set, and '/..' \
+         site, a worker death or an exhausted CPU budget (8 s) is attributed to the announced case; in addition '$v' must be an error, id() an error or an empty node-set, and '/..' \
          an error or an empty node-set. Non-trivial = the expression parsed and evaluation ran (a value or an evaluation error), or the case is a family member; distinct by (document, expression)."
             .into()
     }
@@ -112,6 +112,9 @@ impl Property for C06 {
     }
     fn abort_is_verdict(&self) -> bool {
         true
+    }
+    fn cpu_budget_s(&self) -> u64 {
+        8 // the slowest family member needs < 1 s
     }
     fn abort_key(&self, case: &Json, what: &str) -> String {
         let what = if what.starts_with("sig") && what != "sigkill" { "crash" } else { what };
